@@ -23,7 +23,7 @@ RULE = (
     "distinct = distinct op-class sequences (op, group, change class, member count, identity spellings used)."
 )
 ASSUMPTIONS = [
-    "members never contain the literal separator line '---- CSVPATH ----' and identities are words of letters, digits, '-', '_', '+' separated by single blanks, without '.', '#', ':' (the reference syntax cannot express others)",
+    "members never contain the literal separator line '---- CSVPATH ----' and identities are words of (also non-ASCII) letters, digits, '-', '_', '+' separated by single blanks, without '.', '#', ':' (the reference syntax cannot express others)",
     "identities are distinct within a group; members without identity are only addressed by position",
     "groups are added from lists of strings; from_file/from_dir/from_json loaders are not explored",
 ]
@@ -95,7 +95,7 @@ def gen_members(rng, tag):
             idents.append(str(perm[j]))
         elif wordy and rng.random() < 0.7:
             # several-word identities and ones with punctuation the reference syntax does not reserve
-            idents.append(rng.choice([f"{tag} m{j}", f"my {tag}m{j} path", f"{tag}-m{j}", f"{tag}_m{j}", f"{tag}m{j}+", f"{tag}m{j} 34d", f"m{j} {tag} to"]))
+            idents.append(rng.choice([f"\u00e9lan{tag}m{j}", f"\u00dcber{tag}m{j}", f"caf\u00e9 {tag}m{j}", f"\u6587{tag}m{j}", f"{tag} m{j}", f"my {tag}m{j} path", f"{tag}-m{j}", f"{tag}_m{j}", f"{tag}m{j}+", f"{tag}m{j} 34d", f"m{j} {tag} to"]))
         else:
             # (endings that collide with the letters of the ':to' / ':from' directives included)
             idents.append(f"{tag}m{j}{rng.choice(['', 'x', '7', 't', 'o', 'to', 'f', 'r', 'm', 'from', 'photo', 'room'])}")
